@@ -412,6 +412,8 @@ func c05Scenarios(thorough bool) []c05Scn {
 		{Name: "last address fails while a caller with a new address joins", Addrs: []string{c05TCP1}, LateAddr: c05TCP2, Script: map[string][]string{c05TCP1: {fxFail}, c05TCP2: {fxOK}}, Callers: two },
 		{Name: "tcp + relay, force-direct and plain caller", Addrs: []string{c05TCP1, "RELAY"}, Script: map[string][]string{c05TCP1: {fxFail}, "RELAY": {fxOK}}, Callers: []c05Caller{{ForceDirect: true}, {}} },
 		{Name: "fd=1: ok and hang, caller 1 cancelled", Addrs: []string{c05TCP1, c05TCP2}, Script: map[string][]string{c05TCP1: {fxOK}}, Callers: []c05Caller{{}, {Cancel: true}}, FD: 1, PerPeer: 2, Ticks: []time.Duration{251 * time.Millisecond} },
+		{Name: "force-direct caller introduces the address and is cancelled, a plain caller has joined", Addrs: []string{c05TCP1}, Script: map[string][]string{c05TCP1: {fxOK}}, Callers: []c05Caller{{ForceDirect: true, Cancel: true}, {}}},
+		{Name: "sim-connect caller introduces the address and is cancelled, a plain caller has joined", Addrs: []string{c05TCP1, c05QUIC}, Script: map[string][]string{c05TCP1: {fxOK}, c05QUIC: {fxFail}}, Callers: []c05Caller{{SimConnect: true, Cancel: true}, {}}},
 		{Name: "dial authenticates as the wrong peer", Addrs: []string{c05TCP1}, Script: map[string][]string{c05TCP1: {fxWrongPeer}}, Callers: one },
 	}
 	if thorough {
